@@ -489,13 +489,14 @@ type obfAnchors struct {
 	typ         *types.Named
 	cipherF     *types.Var
 	encHelpers  []*ssa.Function // functions calling Encrypt
-	encWrappers []*ssa.Function // functions that only return a helper's result for their own argument
+	encWrappers []*ssa.Function // functions whose every result is a helper's (or wrapper's) result for their own argument, or that argument
+	encSrcIdx   map[*ssa.Function]int // helper/wrapper -> index (in Params / call Args) of the string that is encrypted
 	entries     []*ssa.Function // process{Traces,Logs,Metrics}
 	errs        []string
 }
 
 func newObfAnchors(p *core.Prog) *obfAnchors {
-	a := &obfAnchors{}
+	a := &obfAnchors{encSrcIdx: map[*ssa.Function]int{}}
 	pk := p.Pkg(core.ObfPath)
 	if pk == nil {
 		a.errs = append(a.errs, "package not loaded")
@@ -535,44 +536,86 @@ func newObfAnchors(p *core.Prog) *obfAnchors {
 		})
 		if callsEnc {
 			a.encHelpers = append(a.encHelpers, fn)
+			idx := len(fn.Params) - 1
+			core.EachInstr(fn, func(i ssa.Instruction) {
+				if cl, ok := i.(*ssa.Call); ok && core.IsMethodOf(core.CalleeObj(cl), "github.com/cyrildever/feistel", "", "Encrypt") && len(cl.Call.Args) > 0 {
+					for k, q := range fn.Params {
+						if core.Canon(cl.Call.Args[len(cl.Call.Args)-1]) == ssa.Value(q) {
+							idx = k
+						}
+					}
+				}
+			})
+			a.encSrcIdx[fn] = idx
 		}
 	}
-	// wrappers: methods of the instance whose every return is the result of one helper applied to their own last parameter
-	for _, fn := range all {
-		if fn.Synthetic != "" || fn.Parent() != nil || len(fn.Params) == 0 || fn.Signature.Results().Len() != 1 {
-			continue
-		}
-		isHelper := false
-		for _, h := range a.encHelpers {
-			if h == fn {
-				isHelper = true
+	// wrappers: functions with one result, every return of which is, for one string parameter q of theirs, either q
+	// itself (the fallback) or derived — through accessors of the cipher's result type, conversions and tuple
+	// extraction only — from a helper/wrapper applied to q; a result of a (value, ok) or (value, err) helper is used
+	// only under the success test of that very call. Iterated, so wrappers of wrappers are found.
+	for round := 0; round < 3; round++ {
+		for _, fn := range all {
+			if fn.Synthetic != "" || fn.Parent() != nil || len(fn.Params) == 0 || fn.Signature.Results().Len() != 1 {
+				continue
 			}
-		}
-		if isHelper {
-			continue
-		}
-		rets := core.Returns(fn)
-		wraps := len(rets) > 0
-		for _, r := range rets {
-			cl, ok := r.Results[0].(*ssa.Call)
-			if !ok {
-				wraps = false
-				break
+			if _, known := a.encSrcIdx[fn]; known {
+				continue
 			}
-			callee := cl.Call.StaticCallee()
-			isH := false
-			for _, h := range a.encHelpers {
-				if callee == h {
-					isH = true
+			for qi, q := range fn.Params {
+				if b, ok := q.Type().Underlying().(*types.Basic); !ok || b.Kind() != types.String {
+					continue
+				}
+				rets := core.Returns(fn)
+				wraps, usesEnc := len(rets) > 0, false
+				for _, r := range rets {
+					okRet := true
+					core.BackSlice(r.Results[0], func(v ssa.Value) bool {
+						switch x := v.(type) {
+						case *ssa.Parameter:
+							if x != q {
+								okRet = false
+							}
+							return false
+						case *ssa.Call:
+							callee := x.Call.StaticCallee()
+							if idx, isEnc := a.encSrcIdx[callee]; isEnc && callee != nil {
+								if idx >= len(x.Call.Args) || core.Canon(x.Call.Args[idx]) != ssa.Value(q) {
+									okRet = false
+								} else if callee.Signature.Results().Len() >= 2 && !underSuccessOf(x, r) {
+									okRet = false
+								} else {
+									usesEnc = true
+								}
+								return false
+							}
+							f := core.CalleeObj(x)
+							if f != nil && f.Pkg() != nil && strings.HasPrefix(f.Pkg().Path(), "github.com/cyrildever/feistel") {
+								return true
+							}
+							okRet = false
+							return false
+						case *ssa.Alloc:
+							if x.Comment != "varargs" { // String(true): the argument list of a variadic accessor
+								okRet = false
+							}
+							return false
+						case *ssa.Global, *ssa.Lookup, *ssa.MakeClosure:
+							okRet = false
+							return false
+						}
+						return true
+					})
+					if !okRet {
+						wraps = false
+						break
+					}
+				}
+				if wraps && usesEnc {
+					a.encWrappers = append(a.encWrappers, fn)
+					a.encSrcIdx[fn] = qi
+					break
 				}
 			}
-			if !isH || len(cl.Call.Args) == 0 || cl.Call.Args[len(cl.Call.Args)-1] != ssa.Value(fn.Params[len(fn.Params)-1]) {
-				wraps = false
-				break
-			}
-		}
-		if wraps {
-			a.encWrappers = append(a.encWrappers, fn)
 		}
 	}
 	for _, fn := range all {
@@ -599,6 +642,47 @@ func (a *obfAnchors) ok(c *core.Ctx) bool {
 		return false
 	}
 	return true
+}
+
+// underSuccessOf: instruction at is reached only on the success edge of a test of call's second result
+// (`ok` true, `err == nil`).
+func underSuccessOf(call *ssa.Call, at ssa.Instruction) bool {
+	fn := call.Parent()
+	for _, b := range fn.Blocks {
+		iff := core.IfOf(b)
+		if iff == nil {
+			continue
+		}
+		isSecond := func(v ssa.Value) bool {
+			ex, ok := core.Strip(v).(*ssa.Extract)
+			return ok && ex.Tuple == ssa.Value(call) && ex.Index >= 1
+		}
+		switch c := iff.Cond.(type) {
+		case *ssa.Extract:
+			if isSecond(c) && core.GuardedBy(iff, true, at) {
+				return true
+			}
+		case *ssa.BinOp:
+			if (isSecond(c.X) && core.IsNilConst(c.Y)) || (isSecond(c.Y) && core.IsNilConst(c.X)) {
+				if c.Op == token.EQL && core.GuardedBy(iff, true, at) || c.Op == token.NEQ && core.GuardedBy(iff, false, at) {
+					return true
+				}
+			}
+		case *ssa.UnOp:
+			if c.Op == token.NOT && isSecond(c.X) && core.GuardedBy(iff, false, at) {
+				return true
+			}
+		}
+	}
+	return false
+}
+
+// encSrc: the argument of a cipher helper/wrapper call that is encrypted.
+func (a *obfAnchors) encSrc(cl *ssa.Call) ssa.Value {
+	if idx, ok := a.encSrcIdx[cl.Call.StaticCallee()]; ok && idx < len(cl.Call.Args) {
+		return cl.Call.Args[idx]
+	}
+	return cl.Call.Args[len(cl.Call.Args)-1]
 }
 
 func (a *obfAnchors) isEncCall(v ssa.Value) (*ssa.Call, bool) {
@@ -839,7 +923,7 @@ func c17_4(c *core.Ctx, p *core.Prog) {
 						msgs = append(msgs, "the string written is not the result of the cipher helper")
 						continue
 					}
-					in := enc.Call.Args[len(enc.Call.Args)-1]
+					in := a.encSrc(enc)
 					if g, ok := in.(*ssa.Call); !ok || pdataCallee(g) == nil || pdataCallee(g).Name() != "Str" || g.Call.Args[0] != srcVal {
 						msgs = append(msgs, "the cipher is not applied to this element's own string")
 						continue
@@ -866,7 +950,7 @@ func c17_4(c *core.Ctx, p *core.Prog) {
 						msgs = append(msgs, "the bytes written are not the result of the cipher helper")
 						continue
 					}
-					if g := getter("Bytes"); g == nil || !core.DerivesFrom(enc.Call.Args[len(enc.Call.Args)-1], func(v ssa.Value) bool { return v == g }) {
+					if g := getter("Bytes"); g == nil || !core.DerivesFrom(a.encSrc(enc), func(v ssa.Value) bool { return v == g }) {
 						msgs = append(msgs, "the cipher is not applied to this element's own bytes")
 						continue
 					}
@@ -1019,7 +1103,7 @@ func c17_5(c *core.Ctx, p *core.Prog) {
 				c.Viol(key, pos, core.FuncName(fn), fmt.Sprintf("%s.%s is overwritten with something other than the cipher helper's result", recvName, field))
 				return
 			}
-			get, ok := enc.Call.Args[len(enc.Call.Args)-1].(*ssa.Call)
+			get, ok := a.encSrc(enc).(*ssa.Call)
 			if !ok || pdataCallee(get) == nil {
 				c.Viol(key, pos, core.FuncName(fn), "the cipher is not applied to a field of the telemetry")
 				return
@@ -1116,7 +1200,7 @@ func c17_6(c *core.Ctx, p *core.Prog) {
 		"the processing path is not a pure function of (instance, input): "+strings.Join(bad, ", ")+" — equal inputs can give different substitutes")
 	// helpers: result derives from Encrypt(source) or from source itself
 	for _, h := range a.encHelpers {
-		src := h.Params[len(h.Params)-1]
+		src := h.Params[a.encSrcIdx[h]]
 		var encCall *ssa.Call
 		core.EachInstr(h, func(i ssa.Instruction) {
 			if cl, ok := i.(*ssa.Call); ok && core.IsMethodOf(core.CalleeObj(cl), "github.com/cyrildever/feistel", "", "Encrypt") {
@@ -1165,6 +1249,16 @@ func c17_6(c *core.Ctx, p *core.Prog) {
 			}
 		}
 		for _, r := range core.Returns(h) {
+			if len(r.Results) >= 2 {
+				// a (value, ok) / (value, err) helper: on its failure returns the value is not meant to be used,
+				// and the wrappers are held to use it only under the success test (see newObfAnchors)
+				if k, isC := r.Results[1].(*ssa.Const); isC && !k.IsNil() && k.Value != nil && k.Value.ExactString() == "false" {
+					continue
+				}
+				if isErr(r.Results[1].Type()) && !core.IsNilConst(r.Results[1]) {
+					continue
+				}
+			}
 			fromEnc, fromSrc, other := false, false, ""
 			core.BackSlice(r.Results[0], func(v ssa.Value) bool {
 				switch x := v.(type) {
@@ -1214,6 +1308,10 @@ func c17_6(c *core.Ctx, p *core.Prog) {
 			}
 		}
 		c.Check(len(msgs) == 0, "helper="+core.FuncName(h), p.Pos(h.Pos()), core.FuncName(h), "returns the cipher's output for its argument, or the argument itself on error", strings.Join(msgs, "; "))
+	}
+	// wrappers were admitted by the same criterion (newObfAnchors): one obligation each, so that the evidence lists them
+	for _, w := range a.encWrappers {
+		c.OK("wrapper="+core.FuncName(w), p.Pos(w.Pos()), core.FuncName(w), "every result is a cipher helper's result for the wrapper's own argument (used under the helper's success test) or that argument")
 	}
 }
 
@@ -1405,6 +1503,29 @@ func c17_7(c *core.Ctx, p *core.Prog) {
 					}
 				}
 			})
+			// delegated form: the arm hands this type's data points (or the metric's X() value) to a package helper —
+			// possibly one generic helper for all five types — that processes the attributes of what it is handed
+			if !okArm {
+				core.EachInstr(fn, func(i ssa.Instruction) {
+					cl, ok := i.(*ssa.Call)
+					if !ok || okArm || !core.GuardedBy(iff, true, cl) {
+						return
+					}
+					callee := cl.Call.StaticCallee()
+					if callee == nil || core.FnPkgPath(callee) != core.ObfPath || len(callee.Blocks) == 0 {
+						return
+					}
+					for k, arg := range cl.Call.Args {
+						g, ok := core.Canon(arg).(*ssa.Call)
+						if !ok || pdataCallee(g) == nil || !strings.Contains(valueLabel(g)+"()", "."+name+"()") || k >= len(callee.Params) {
+							continue
+						}
+						if processesAttrsOf(callee, callee.Params[k], 0) {
+							okArm = true
+						}
+					}
+				})
+			}
 			// iterator form: `for _, dp := range metric.X().DataPoints().All() { … dp.Attributes() … }` — the body is a
 			// yield closure handed to the iterator
 			if !okArm {
@@ -1465,4 +1586,36 @@ func c17_7(c *core.Ctx, p *core.Prog) {
 	for _, need := range []string{"Resource", "InstrumentationScope", "Span", "SpanEvent", "SpanLink", "LogRecord", "NumberDataPoint", "HistogramDataPoint", "ExponentialHistogramDataPoint", "SummaryDataPoint"} {
 		c.Check(owners[need], "attrs-of="+need, "collector/processor/obfuscationprocessor", "", "attributes of "+need+" are processed", "attributes of "+need+" are never handed to the attribute processor: their strings stay readable")
 	}
+}
+
+// processesAttrsOf: h (or a package function it hands prm on to) passes X.Attributes() to a function of the
+// obfuscation package, with X derived from parameter prm (an element of the slice, the value itself).
+func processesAttrsOf(h *ssa.Function, prm *ssa.Parameter, depth int) bool {
+	found := false
+	for _, f := range core.WithClosures(h) {
+		core.EachInstr(f, func(i ssa.Instruction) {
+			cl, ok := i.(*ssa.Call)
+			if !ok || found {
+				return
+			}
+			callee := cl.Call.StaticCallee()
+			if callee == nil || core.FnPkgPath(callee) != core.ObfPath {
+				return
+			}
+			fromPrm := func(v ssa.Value) bool {
+				return core.DerivesFrom(v, func(x ssa.Value) bool { return x == ssa.Value(prm) })
+			}
+			for k, arg := range cl.Call.Args {
+				if g, ok := core.Canon(arg).(*ssa.Call); ok && pdataCallee(g) != nil && pdataCallee(g).Name() == "Attributes" && len(g.Call.Args) > 0 && fromPrm(g.Call.Args[0]) {
+					found = true
+					return
+				}
+				if depth < 2 && k < len(callee.Params) && len(callee.Blocks) > 0 && fromPrm(arg) && isPdataType(arg.Type()) && processesAttrsOf(callee, callee.Params[k], depth+1) {
+					found = true
+					return
+				}
+			}
+		})
+	}
+	return found
 }
